@@ -1,4 +1,5 @@
 import Proofs.ThreadsOps
+import Proofs.ThreadsRep
 import Generated.Access
 /-!
 # C18 — points shared between threads behave as if used sequentially
@@ -16,7 +17,9 @@ generator the table computed from `c0` and from `cS` is the same non-empty `tF`.
 
 *Partial*: atomicity of a single attribute load / store and of tuple construction under the GIL is assumed (the model
 cannot exhibit a torn reference); `mul_add` and key-level `verify` are not modelled as programs (they are covered by the
-schedule enumeration on the real code only); the `ObjOK` facts are hypotheses here.
+schedule enumeration on the real code only).  `linearizable` takes the `ObjOK` facts as hypotheses;
+`objOK_of_rep` / `linearizable_valid_points_partial` discharge them from the C06/C07 theorems for every stored valid
+point of a subgroup without 2-torsion (`Jac.NoOrder2`, the N2T hypothesis of C06/C07 — open known finding K1).
 -/
 namespace C18
 open ThreadProgs Threads
@@ -48,6 +51,11 @@ theorem modelled_methods_cover (info : Nat → ObjInfo) :
       "from_affine"] := rfl
   rw [this]
   decide
+
+/-- `VerifyingKey.precompute` swaps the point object by ONE attribute store of an equal-valued new object built from
+`x()`, `y()` of the old one (`from_affine`, modelled above as `mFromAffine`); the translator refuses any other shape -/
+theorem vk_precompute_single_store :
+    Gen.Access.vk_precompute.head? = some "store pubkey.point := from_affine(pubkey.point, True)" := rfl
 
 /-! ## the generic interleaving theorems (any cells, any number of threads, any schedule) -/
 
@@ -193,6 +201,40 @@ theorem canonical_stable (E : Env) (hok : ∀ id, ObjOK E id) (full : Nat → Bo
     (k : Cell) (h : ∃ t ∈ (run E.canon (initCfg E full ops) sched).thr, t.ph k = .canon) :
     (run E.canon (initCfg E full ops) sched).heap k = E.canon k :=
   (Threads.inv_all_schedules E.good E.canon E.good_canon sched _ (init_inv E hok full ops)).2.2 k h
+
+/-! ## the hypotheses hold for valid points (C06 / C07) -/
+
+section
+open WeierstrassCurve Jac
+variable {p : ℕ} [hp : Fact p.Prime] {a b : ℤ} {H : AddSubgroup (Grp (a : ZMod p) (b : ZMod p))}
+
+/-- **objOK_of_rep**: `ObjOK` holds for a shared object whose initial triple is a stored representation (`Jac.PJRep`:
+on the curve, coordinates in [0, p), not the identity) of an element of a subgroup without 2-torsion, with `cS` what
+`scale()` computes and, for a generator of positive declared order, `tF` what `_maybe_precompute` computes: scaling
+succeeds with z = 1 (`C06.scale_preserves`), the identity test is representation independent, and the table built from
+either representation is the same list (`Jac.precomputeTable_correct_min` + uniqueness of canonical pairs) -/
+theorem objOK_of_rep (hH : NoOrder2 H) (E : Env) (id : Nat) (g : Grp (a : ZMod p) (b : ZMod p))
+    (hP : PJRep p a b H (mkPJ (E.info id) (E.c0 id)) g)
+    (hS : Curve.pjScale (mkPJ (E.info id) (E.c0 id)) = .ok (mkPJ (E.info id) (E.cS id)))
+    (hgen : (E.info id).generator = true → ∃ o, Curve.truthy (E.info id).order = some o ∧ 0 < o ∧
+      Curve.precomputeTable (mkPJ (E.info id) (E.c0 id)) = .ok (E.tF id))
+    (hnogen : (E.info id).generator = false → E.tF id = []) : ObjOK E id :=
+  ThreadProgs.objOK_of_rep hH E id g hP hS hgen hnogen
+
+/-- **linearizable_valid_points_partial**: `linearizable` for shared objects that are valid stored points (partial:
+N2T, as in C06/C07; p prime) -/
+theorem linearizable_valid_points_partial (hH : NoOrder2 H) (E : Env) (g : Nat → Grp (a : ZMod p) (b : ZMod p))
+    (hP : ∀ id, PJRep p a b H (mkPJ (E.info id) (E.c0 id)) (g id))
+    (hS : ∀ id, Curve.pjScale (mkPJ (E.info id) (E.c0 id)) = .ok (mkPJ (E.info id) (E.cS id)))
+    (hgen : ∀ id, (E.info id).generator = true → ∃ o, Curve.truthy (E.info id).order = some o ∧ 0 < o ∧
+      Curve.precomputeTable (mkPJ (E.info id) (E.c0 id)) = .ok (E.tF id))
+    (hnogen : ∀ id, (E.info id).generator = false → E.tF id = [])
+    (full : Nat → Bool) (ops : List Op) (sched : List Nat) :
+    (∀ k, E.good k ((run E.canon (initCfg E full ops) sched).heap k)) ∧
+    (∀ (j : Nat) (op : Op) (t : Thread Cell Val (Res Out)) (r : Res Out), ops[j]? = some op →
+        (run E.canon (initCfg E full ops) sched).thr[j]? = some t → t.prog = .ret r → op.acc E r) :=
+  linearizable E (fun id => objOK_of_rep hH E id (g id) (hP id) (hS id) (hgen id) (hnogen id)) full ops sched
+end
 
 /-! ## non-vacuity: a concrete object on the toy curve y² = x³ + x + 6 over F₁₁ (13 points) -/
 
